@@ -30,6 +30,8 @@ type ReplayFile struct {
 	Stubs    []StubSpec   `json:"stubs,omitempty"`
 	Aux      []AuxFile    `json:"aux,omitempty"`
 	Outcome  string       `json:"native_outcome,omitempty"`
+	Sched    []string     `json:"sched,omitempty"`
+	Switch   []string     `json:"switches,omitempty"`
 }
 
 type knownFinding struct {
@@ -78,6 +80,10 @@ func loadKnown(verif string) []knownFinding {
 
 // buildReplayBinary compiles the test binary for a package with harness overlay.
 func buildReplayBinary(repo string, spec LoadSpec, stubs []StubSpec, harnessNames []string, tmp string) (string, error) {
+	return buildReplayBinaryOpt(repo, spec, stubs, harnessNames, tmp, false)
+}
+
+func buildReplayBinaryOpt(repo string, spec LoadSpec, stubs []StubSpec, harnessNames []string, tmp string, race bool) (string, error) {
 	pkgName, err := specPackageName(spec)
 	if err != nil {
 		return "", err
@@ -194,6 +200,10 @@ func buildReplayBinary(repo string, spec LoadSpec, stubs []StubSpec, harnessName
 	}
 	bin := filepath.Join(tmp, "replay.test")
 	args := []string{"test", "-tags", "verif", "-vet=off", "-c", "-o", bin, "-overlay", ovPath}
+	if race {
+		bin = filepath.Join(tmp, "replay-race.test")
+		args = []string{"test", "-race", "-tags", "verif", "-vet=off", "-c", "-o", bin, "-overlay", ovPath}
+	}
 	if needLink {
 		args = append(args, "-ldflags=-checklinkname=0")
 	}
@@ -218,9 +228,16 @@ func tail(s string, n int) string {
 var reOutcome = regexp.MustCompile(`VERIF-REPLAY-OUTCOME: (.*)`)
 
 func runReplayBinary(bin, repo, pkgDir, harness, tapePath string) string {
-	cmd := exec.Command(bin, "-test.run", "^TestVerifReplay$", "-test.count=1", "-test.timeout=120s")
+	return runReplayBinaryOpt(bin, repo, pkgDir, harness, tapePath, "120s", false)
+}
+
+func runReplayBinaryOpt(bin, repo, pkgDir, harness, tapePath, timeout string, freeSched bool) string {
+	cmd := exec.Command(bin, "-test.run", "^TestVerifReplay$", "-test.count=1", "-test.timeout="+timeout)
 	cmd.Dir = filepath.Join(repo, pkgDir)
 	cmd.Env = append(os.Environ(), "VERIF_TAPE="+tapePath, "VERIF_HARNESS="+harness, "VERIF_TIER="+replayTier)
+	if freeSched {
+		cmd.Env = append(cmd.Env, "VERIF_FREE_SCHED=1")
+	}
 	var buf bytes.Buffer
 	cmd.Stdout = &buf
 	cmd.Stderr = &buf
@@ -234,6 +251,12 @@ func runReplayBinary(bin, repo, pkgDir, harness, tapePath string) string {
 		return "timeout"
 	}
 	out := buf.String()
+	if strings.Contains(out, "WARNING: DATA RACE") {
+		return "race"
+	}
+	if strings.Contains(out, "panic: test timed out") {
+		return "hang:test timed out"
+	}
 	if m := reOutcome.FindStringSubmatch(out); m != nil {
 		return strings.TrimSpace(m[1])
 	}
@@ -255,8 +278,12 @@ func reproduced(v *Violation, outcome string) bool {
 	switch v.Kind {
 	case "assert", "fail":
 		return outcome == "assert-fail:"+v.Label
-	case "panic":
+	case "panic", "fatal":
 		return strings.HasPrefix(outcome, "panic:")
+	case "race":
+		return outcome == "race"
+	case "deadlock":
+		return strings.HasPrefix(outcome, "hang:") || strings.Contains(outcome, "all goroutines are asleep")
 	}
 	return false
 }
@@ -296,20 +323,43 @@ func (rep *CheckReport) replayAll(o *checkOpts) {
 		rdir := filepath.Join(o.verif, "replay", rep.Prop)
 		os.MkdirAll(rdir, 0o755)
 		perKey := map[string]bool{}
+		raceBin, raceErr := "", error(nil)
 		sort.SliceStable(vs, func(i, j int) bool { return vs[i].Harness+vs[i].Label < vs[j].Harness+vs[j].Label })
 		for i, v := range vs {
-			rf := &ReplayFile{Property: rep.Prop, Harness: v.Harness, PkgDir: g.spec.PkgDir, Kind: v.Kind, Label: v.Label, Pos: v.Pos, Msg: v.Msg, Tape: v.Tape, Stubs: g.P.stubSpec, Aux: g.spec.Aux}
+			rf := &ReplayFile{Property: rep.Prop, Harness: v.Harness, PkgDir: g.spec.PkgDir, Kind: v.Kind, Label: v.Label, Pos: v.Pos, Msg: v.Msg, Tape: v.Tape, Stubs: g.P.stubSpec, Aux: g.spec.Aux, Sched: v.Sched, Switch: v.Switch}
 			for _, f := range g.spec.Files {
 				rf.Files = append(rf.Files, f)
 			}
 			path := filepath.Join(rdir, fmt.Sprintf("%s-%d.json", v.Harness, i))
 			b, _ := json.MarshalIndent(rf, "", " ")
 			os.WriteFile(path, b, 0o644)
-			outcome := runReplayBinary(bin, o.repo, g.spec.PkgDir, v.Harness, path)
-			// harnesses whose outcome depends on Go's randomised map iteration order are replayed several times
-			if hd := g.P.harness[v.Harness]; hd != nil && !reproduced(v, outcome) {
-				for n := optInt(hd.Opts, o.tier, "replays", 1); n > 1 && !reproduced(v, outcome); n-- {
-					outcome = runReplayBinary(bin, o.repo, g.spec.PkgDir, v.Harness, path)
+			rbin, timeout := bin, "120s"
+			hd := g.P.harness[v.Harness]
+			isSched := hd != nil && optInt(hd.Opts, o.tier, "sched", 0) != 0
+			if v.Kind == "race" {
+				if raceBin == "" && raceErr == nil {
+					raceBin, raceErr = buildReplayBinaryOpt(o.repo, g.spec, g.P.stubSpec, g.P.harnessNames(), tmp, true)
+				}
+				if raceErr != nil {
+					rep.Problems = append(rep.Problems, "replay build (-race): "+raceErr.Error())
+					continue
+				}
+				rbin = raceBin
+			}
+			if v.Kind == "deadlock" {
+				timeout = "8s"
+			}
+			outcome := runReplayBinaryOpt(rbin, o.repo, g.spec.PkgDir, v.Harness, path, timeout, false)
+			// harnesses whose outcome depends on Go's randomised map iteration order or on the
+			// scheduler are replayed several times (sched harnesses: first steered by the recorded
+			// order of vSched events, then free-running with perturbation)
+			if hd != nil && !reproduced(v, outcome) {
+				def := 1
+				if isSched {
+					def = 40
+				}
+				for n := optInt(hd.Opts, o.tier, "replays", def); n > 1 && !reproduced(v, outcome); n-- {
+					outcome = runReplayBinaryOpt(rbin, o.repo, g.spec.PkgDir, v.Harness, path, timeout, isSched && n%2 == 0)
 				}
 			}
 			rf.Outcome = outcome
